@@ -2346,6 +2346,7 @@ class ReShuffleDataset(Dataset):
         else:
             return self.__class__(
                 input_dataset=self.input_dataset.copy(freeze=freeze),
+                rng=self.rng,
             )
 
     @property
@@ -2467,6 +2468,7 @@ class LocalShuffleDataset(Dataset):
         return self.__class__(
             input_dataset=self.input_dataset.copy(freeze=freeze),
             buffer_size=self.buffer_size,
+            rng=self.rng,
         )
 
     @property
